@@ -53,6 +53,45 @@ def run_linediff(ctx, name, lean_mode, timeout=7200):
     return res
 
 
+def aux_stream(ctx, res, prefix, lean_mode, what, timeout=3600):
+    """a second line stream written by the same harness run (<prefix>_ops.txt / <prefix>_obs.txt): the compiled Lean
+    model in mode <lean_mode> must give the same answers"""
+    LEAN, ENV = G['LEAN'], G['ENV']
+    if res is None or not ctx.driver_ok:
+        return None
+    d = res['dir']
+    ops, obs = os.path.join(d, prefix + '_ops.txt'), os.path.join(d, prefix + '_obs.txt')
+    if not (os.path.exists(ops) and os.path.exists(obs)):
+        ctx.broken.append(dict(kind='tie', what='%s: the harness wrote no %s stream' % (what, prefix), detail=''))
+        return None
+    drv = os.path.join(LEAN, '.lake/build/bin/driver')
+    lean_obs = os.path.join(d, prefix + '_lean.txt')
+    if not os.path.exists(lean_obs) or os.path.getmtime(lean_obs) < os.path.getmtime(drv):
+        with open(ops, 'rb') as fin, open(lean_obs, 'wb') as fout:
+            p = subprocess.run([drv, lean_mode], stdin=fin, stdout=fout, env=ENV, timeout=timeout)
+        if p.returncode != 0:
+            ctx.broken.append(dict(kind='tie', what='Lean driver crashed in mode ' + lean_mode, detail=''))
+            return None
+    diffs, total, n = plain_diff(ops, obs, lean_obs)
+    if total:
+        ctx.broken.append(dict(kind='correspondence', what='%s: the real airgapped machine and the Lean model of its key-generation handlers disagree on %d of %d operations' % (what, total, n),
+                               detail='', diffs=diffs[:10], script=ops))
+    return dict(operations=n, disagreements=total)
+
+
+AIRDKG_TRUSTED = ['correspondence airdkg (a second stream of the algdiff run): every commits / deals / responses / master-key operation a real airgapped machine handles in the ceremonies - honest ones and the deviating-dealer scenarios - is written down in the abstract form of Model/AirDkg.lean (a point as its discrete logarithm, known to the harness through the dealer coefficients read by the verif hooks and through its own forgeries; a ciphertext as what its addressee obtains from it; a signature as whether it verifies; a session id as what it hashes) and the compiled model must give the machine\'s answer: refusal (error result naming the index, or fatal), own commitments, every share dealt and to whose key, the dealers answered, master key, public polynomial and the stored share',
+                  'the abstraction itself (decrypting with the machines\' keys, schnorr.Verify, the re-implemented vss session id) is harness code; kyber\'s group, ECIES, AEAD and Schnorr are not modelled; an operation with a point or shape the harness cannot translate, and a round after a refused responses / master-key step (where the real state depends on Go\'s map order), are left out and counted']
+
+
+def airdkg_part(ctx, res):
+    r = aux_stream(ctx, res, 'airdkg', 'airdkg', 'airdkg')
+    if r is not None:
+        st = (res['stats'].get('AirDkg') or {})
+        ctx.cov['airgapped_dkg_handlers'] = dict(operations=r['operations'], disagreements=r['disagreements'], by_kind=st.get('ByKind'), outcomes=st.get('Outcomes'),
+                                                 skipped=st.get('Skipped'), skipped_why=st.get('SkipWhy'), machines=st.get('Machines'))
+        ctx.cov['trusted_base'] = ctx.cov.get('trusted_base', []) + AIRDKG_TRUSTED
+
+
 def crash_report(ctx, driver, r, d):
     """the harness process died: a fault no recover() catches. The input it was handling is in current_input.txt"""
     cur = os.path.join(d, 'current_input.txt')
@@ -192,7 +231,8 @@ def prog_C01(ctx):
 
 def prog_C02(ctx):
     fsm_part(ctx, ['C02'], ['event_dkg_master_key'])
-    generic(ctx, ['Dc4bcVerif.Props.C02', 'Dc4bcVerif.Props.C02Fsm', 'Dc4bcVerif.Props.C01'], 'algdiff', 'alg', ['C02'], ALG_TRUSTED, ALG_RULE, cov_from_stats=alg_cov)
+    res = generic(ctx, ['Dc4bcVerif.Props.C02', 'Dc4bcVerif.Props.C02Fsm', 'Dc4bcVerif.Props.C02Air', 'Dc4bcVerif.Props.C01'], 'algdiff', 'alg', ['C02'], ALG_TRUSTED, ALG_RULE, cov_from_stats=alg_cov)
+    airdkg_part(ctx, res)
 
 
 NODE_TRUSTED = ['correspondence nodediff: a real BaseNodeService (LevelDB state, file board, real repositories) inside a real ceremony is fed every message through ProcessMessage, plus structure-aware mutations (altered payload, broken/empty/foreign signatures, renamed senders, foreign participant ids, replays under other events/rounds, junk) and answers through ProcessOperation/ApproveParticipation incl. altered, unknown, request-only and duplicated results; the compiled Lean node model gets the same inputs and must reproduce outcome, posted messages and the canonical node state after every step',
@@ -318,9 +358,10 @@ def prog_C07(ctx):
 
 def prog_C11(ctx):
     fsm_part(ctx, ['C05', 'C11'], ['event_dkg'])
-    generic(ctx, ['Dc4bcVerif.Props.C11', 'Dc4bcVerif.Props.C02'], 'algdiff', 'alg', ['C11'], ALG_TRUSTED,
+    res = generic(ctx, ['Dc4bcVerif.Props.C11', 'Dc4bcVerif.Props.C11Air', 'Dc4bcVerif.Props.C02'], 'algdiff', 'alg', ['C11'], ALG_TRUSTED,
             ALG_RULE + '; C11: one key generation per (deviation kind, dealer, victim): broadcast commitments with replaced tail / all replaced / longer / shorter / a non-point, deal bit-flipped / truncated / empty / meant for somebody else, a response turned into a complaint; quick: (3,2) one pair per kind; thorough: four configurations, all or sampled pairs; plus a control run without deviation',
             cov_from_stats=alg_cov)
+    airdkg_part(ctx, res)
     ctx.assumptions += ['a deviating participant is played by rewriting its own airgapped result before its own node posts it (executeOperation binds ID, type and request payload, not the result messages)']
 
 
